@@ -172,6 +172,10 @@ func (r *Raft) runFollower() {
 			r.mainThreadSaturation.working()
 			r.processRPC(rpc)
 
+		case rpc := <-r.heartbeatCh:
+			r.mainThreadSaturation.working()
+			r.processRPC(rpc)
+
 		case c := <-r.configurationChangeCh:
 			r.mainThreadSaturation.working()
 			// Reject any operations since we are not the leader
@@ -323,6 +327,10 @@ func (r *Raft) runCandidate() {
 
 		select {
 		case rpc := <-r.rpcCh:
+			r.mainThreadSaturation.working()
+			r.processRPC(rpc)
+
+		case rpc := <-r.heartbeatCh:
 			r.mainThreadSaturation.working()
 			r.processRPC(rpc)
 		case preVote := <-prevoteCh:
@@ -697,6 +705,10 @@ func (r *Raft) leaderLoop() {
 
 		select {
 		case rpc := <-r.rpcCh:
+			r.mainThreadSaturation.working()
+			r.processRPC(rpc)
+
+		case rpc := <-r.heartbeatCh:
 			r.mainThreadSaturation.working()
 			r.processRPC(rpc)
 
@@ -1487,11 +1499,45 @@ func (r *Raft) processHeartbeat(rpc RPC) {
 	// Ensure we are only handling a heartbeat
 	switch cmd := rpc.Command.(type) {
 	case *AppendEntriesRequest:
-		r.appendEntries(rpc, cmd)
+		// This runs on the transport's goroutine, concurrently with the main
+		// loop, which owns the term, the state and the leader. The only thing
+		// that is safe to do here is to acknowledge a heartbeat that changes
+		// none of them: same term, we are a follower, and it comes from the
+		// leader we already follow. Anything else (a newer term, a candidate
+		// or leader that has to step down, a leader we do not know yet) is
+		// handed to the main loop like an ordinary AppendEntries.
+		if r.heartbeatChangesNothing(cmd) {
+			r.setLastContact()
+			rpc.Respond(&AppendEntriesResponse{
+				RPCHeader: r.getRPCHeader(),
+				Term:      cmd.Term,
+				LastLog:   r.getLastIndex(),
+				Success:   true,
+			}, nil)
+			return
+		}
+		select {
+		case r.heartbeatCh <- rpc:
+		case <-r.shutdownCh:
+		}
 	default:
 		r.logger.Error("expected heartbeat, got", "command", hclog.Fmt("%#v", rpc.Command))
 		rpc.Respond(nil, fmt.Errorf("unexpected command"))
 	}
+}
+
+// heartbeatChangesNothing reports whether a heartbeat can be acknowledged
+// without changing the term, the state or the known leader.
+func (r *Raft) heartbeatChangesNothing(a *AppendEntriesRequest) bool {
+	if a.Term != r.getCurrentTerm() || r.getState() != Follower {
+		return false
+	}
+	addr := a.Addr
+	if len(addr) == 0 {
+		addr = a.Leader
+	}
+	leaderAddr, leaderID := r.LeaderWithID()
+	return leaderAddr != "" && leaderAddr == r.trans.DecodePeer(addr) && leaderID == ServerID(a.ID)
 }
 
 // appendEntries is invoked when we get an append entries RPC call. This must
